@@ -79,6 +79,15 @@ def featureClass (e : Edge) (o : Obj) : String :=
   else if o.container then "container"
   else "plain"
 
+/-- signature of an endpoint violation: clause, feature class of the shape, self loop or not, side of the box the
+    point lies on, near (≤ 16 px: within reach of a decoration offset) or far from the extent, engine -/
+def endSig (clause engine : String) (e : Edge) (o : Obj) (p : Pt) : String :=
+  let loop := if e.src == e.dst then "selfloop" else "edge"
+  let far := if extentDist o p ≤ 16 then "near" else "far"
+  let kind := if o.container then "container" else "leaf"
+  let cls := if onMaxIcon tol o p then "icon-max-size" else featureClass e o
+  s!"{clause}:{cls}:{loop}:{kind}:{sideOf o p}:{far}:{engine}"
+
 def checkEdges (engine path : String) (os : List Obj) (es : List Edge) : Option Verdict := Id.run do
   for e in es do
     if e.lifeline || e.inSeq then continue
@@ -87,11 +96,11 @@ def checkEdges (engine path : String) (os : List Obj) (es : List Edge) : Option 
       match findObj os e.src, findObj os e.dst with
       | some s, some d =>
         if !endsOnExtent tol s e.srcPerim first then
-          return some (.specfalse s!"start-off-source:{featureClass e s}:{engine}"
-            s!"board {path}: edge {e.id} starts at {ptStr first}, source {s.id} shape={s.shape} {boxStr s.box} label={s.labelPos} 3d={s.is3d} multiple={s.multiple}")
+          return some (.specfalse (endSig "start-off-source" engine e s first)
+            s!"board {path}: edge {e.id} starts at {ptStr first} ({sideOf s first} of the box, {ratStr ((extentDist s first).floor)} px from the extent), source {s.id} shape={s.shape} {boxStr s.box} label={s.labelPos} 3d={s.is3d} multiple={s.multiple}")
         if !endsOnExtent tol d e.dstPerim last then
-          return some (.specfalse s!"end-off-destination:{featureClass e d}:{engine}"
-            s!"board {path}: edge {e.id} ends at {ptStr last}, destination {d.id} shape={d.shape} {boxStr d.box} label={d.labelPos} 3d={d.is3d} multiple={d.multiple}")
+          return some (.specfalse (endSig "end-off-destination" engine e d last)
+            s!"board {path}: edge {e.id} ends at {ptStr last} ({sideOf d last} of the box, {ratStr ((extentDist d last).floor)} px from the extent), destination {d.id} shape={d.shape} {boxStr d.box} label={d.labelPos} 3d={d.is3d} multiple={d.multiple}")
       | _, _ => return some (.bad s!"board {path}: endpoint of {e.id} not in the dump")
     | _, _ => continue   -- fewer than two points: C17's subject
   return none
